@@ -406,7 +406,8 @@ func genQueryDoc(g *Gen, r *rand.Rand) *Node {
 	}
 	defs := NewNode()
 	defs.Ch["N_50"] = leaf("object")
-	g.newNameConcrete("unusedWidgetZ"); g.Names.Bind("N_50", "widgetZ")
+	g.newNameConcrete("unusedWidgetZ")
+	g.Names.Bind("N_50", "widgetZ")
 	d.Ch["definitions"] = defs
 	param := func(j int) *Node {
 		switch k := r.Intn(8); {
